@@ -93,6 +93,29 @@ def build(race):
         ents = sorted((os.path.getmtime(os.path.join(root, e)), e) for e in os.listdir(root))
         for _, e in ents[:-6]:
             shutil.rmtree(os.path.join(root, e), ignore_errors=True)
+        # ... and the Go build cache below a few GB (every distinct tree adds to it): when it
+        # has grown past the limit its least recently used half goes
+        gob = os.path.join(VERIF, ".cache", "go-build")
+        try:
+            files = []
+            for d, _, fs in os.walk(gob):
+                for f in fs:
+                    fp = os.path.join(d, f)
+                    st = os.stat(fp)
+                    files.append((max(st.st_atime, st.st_mtime), st.st_size, fp))
+            total = sum(f[1] for f in files)
+            if total > 4 << 30:
+                files.sort()
+                drop = 0
+                for _, sz, fp in files:
+                    if drop > total // 2:
+                        break
+                    if os.path.basename(fp) in ("README", "trim.txt"):
+                        continue
+                    os.remove(fp)
+                    drop += sz
+        except OSError:
+            pass
     finally:
         shutil.rmtree(scratch, ignore_errors=True)
     return binp, th
